@@ -3,7 +3,7 @@
    quantified over texts, trees, record lists and diff scripts of any size. *)
 From Coq Require Import String Ascii.
 From Coq Require Import List Bool NArith PArith Arith.
-From PV Require Import Base.PyData C03.Model C03.Check C03.Proofs C03.Proofs2 C03.Proofs3 C03.Proofs4 C03.Proofs5 C03.Proofs6.
+From PV Require Import Base.PyData C03.Model C03.Check C03.Proofs C03.Proofs2 C03.Proofs3 C03.Proofs4 C03.Proofs5 C03.Proofs6 C03.Proofs7.
 Import ListNotations.
 
 (* ---- 1. NMTranParser.parse: record splitting ------------------------------------------------ *)
@@ -350,3 +350,23 @@ Theorem prepend_option_frame :
     prepend_option r_option r_KEY r_VALUE r_EQUAL r_WS ch key value =
     firstn 1 ch ++ [create_option r_option r_KEY r_VALUE r_EQUAL key value; ws_token r_WS] ++ skipn 1 ch.
 Proof. reflexivity. Qed.
+
+(* ---- 11. OptionRecord.remove_nth_option ------------------------------------------------------------------------ *)
+
+(* For every child list, key and n: remove_nth_option removes nothing, or exactly ONE child — the option that is the
+   n-th (0-based) among the options whose key is a prefix of `key` — together with a blank directly before it; every other
+   child is untouched and in order. *)
+Theorem remove_nth_option_frame :
+  forall (r_option r_KEY r_WS : positive) (ch : list node) (key : text) (n : nat) (res : list node),
+    remove_nth_option r_option r_KEY r_WS ch key n = Some res ->
+    res = ch \/
+    exists pre o post, ch = pre ++ o :: post /\ matches r_option r_KEY key o = true /\ nmatches r_option r_KEY key pre = n /\
+                       res = rev (pop_ws r_WS (rev pre)) ++ post.
+Proof. exact remove_nth_option_frame_lemma. Qed.
+
+(* It never raises as long as every option has a KEY. *)
+Theorem remove_nth_option_total :
+  forall (r_option r_KEY r_WS : positive) (ch : list node) (key : text) (n : nat),
+    forallb (fun nd => match nth_match r_option r_KEY key nd with Some _ => true | None => false end) ch = true ->
+    exists res, remove_nth_option r_option r_KEY r_WS ch key n = Some res.
+Proof. exact remove_nth_option_total_lemma. Qed.
